@@ -229,6 +229,8 @@ std::string gen_name(sim::Rng& rng, const char* base, int i) {
   else if (k == 3) s += ",'t\tab'";
   else if (k == 4) s += ",'Z\xc3\xbcrich'";                     // UTF-8 string subscripts (two- and three-byte sequences)
   else if (k == 5) s += ",'\xe6\x9d\xb1\xe4\xba\xac'";
+  else if (k == 6) s += ",'{A}'";                                  // braces: set members as AMPL prints them; messages quote names
+  else if (k == 7) s += ",'{}->{0}'";
   s += "]";
   return s;
 }
